@@ -252,6 +252,9 @@ func (w *World) nodeValue(id int) interface{} {
 	case "A":
 		return w.anodes[id]
 	default: // X, AX, UR
+		if w.isVee(id) {
+			return w.veeValue(id)
+		}
 		return w.structs[id].Interface()
 	}
 }
@@ -447,6 +450,24 @@ func NewWorld(c *Case) (*World, error) {
 		w.faults[fkey(f.Node, f.Field)] = f
 	}
 	g := c.Graph
+	if c.Universe {
+		// the by-value type has no Resolver twin and no identity an AnyResolver could recognise it by
+		for _, n := range g.Nodes {
+			if n.Type != "" && strings.TrimPrefix(c.GoType[n.Type], "R") == "Vee" {
+				c.GoType[n.Type] = "Vee"
+				switch c.Assign[n.ID] {
+				case "UR":
+					// (with a root resolver installed an unknown Go value would be its business, not reflection's)
+					c.Assign[n.ID] = "X"
+					if c.AnyInstalled {
+						c.Assign[n.ID] = "R"
+					}
+				case "AX":
+					c.Assign[n.ID] = "A"
+				}
+			}
+		}
+	}
 	// phase 1: allocate
 	for _, n := range g.Nodes {
 		switch c.Assign[n.ID] {
@@ -521,7 +542,11 @@ func NewWorld(c *Case) (*World, error) {
 	}
 	if c.Universe {
 		for _, tn := range c.Register {
-			if err := w.Root.RegisterType(newUniverseValue(c.GoType[tn], false).Interface(), tn); err != nil {
+			sample := newUniverseValue(c.GoType[tn], false)
+			if c.GoType[tn] == "Vee" {
+				sample = sample.Elem() // bound by value
+			}
+			if err := w.Root.RegisterType(sample.Interface(), tn); err != nil {
 				return nil, fmt.Errorf("RegisterType(%s): %w", tn, err)
 			}
 		}
